@@ -78,6 +78,56 @@ def _disarm():
     signal.alarm(0)
 
 
+class Ambient:
+    """Process-global settings of an application that uses the library, switched on for one case in four (decided by
+    seed, class and index alone, so a replay meets the same settings): DEBUG logging with a handler that formats every
+    record (lazy log arguments are evaluated), short numpy print options, a short decimal context, and a global numpy
+    random state that was seeded by the application.  None of them is the library's to depend on or to disturb: results
+    must be the same, and after the case the global numpy random state must not have been RESEEDED to a fixed state
+    (consuming random numbers is fine)."""
+
+    EVERY = 4
+
+    def __init__(self):
+        self.saved = None
+
+    def enter(self, token):
+        import decimal
+        import io
+        import logging
+
+        import numpy as np
+
+        root = logging.getLogger()
+        buf = io.StringIO()
+        handler = logging.StreamHandler(buf)
+        handler.setFormatter(logging.Formatter("%(name)s %(levelname)s %(message)s"))
+        self.saved = (root.level, handler, buf, np.get_printoptions(), decimal.getcontext().prec, logging.root.manager.disable)
+        logging.disable(logging.NOTSET)
+        root.setLevel(logging.DEBUG)
+        root.addHandler(handler)
+        np.set_printoptions(precision=3, threshold=5, edgeitems=1, linewidth=40, suppress=True)
+        decimal.getcontext().prec = 7
+        np.random.seed(token % (2**32))
+        return self
+
+    def exit(self):
+        import decimal
+        import logging
+
+        import numpy as np
+
+        level, handler, buf, popts, prec, disabled = self.saved
+        root = logging.getLogger()
+        root.removeHandler(handler)
+        root.setLevel(level)
+        logging.disable(disabled)
+        np.set_printoptions(**popts)
+        decimal.getcontext().prec = prec
+        self.saved = None
+        buf.close()
+
+
 def run_shard(prop, tier, seed, shard, nshards, budget_s, max_cases, only=None, echo_only=False):
     """Returns the shard's result dict.  ``only`` = (cls, index) replays one case."""
     t0 = time.time()
@@ -120,9 +170,18 @@ def run_shard(prop, tier, seed, shard, nshards, budget_s, max_cases, only=None, 
         mon.case = {"cls": cls, "index": index, "echo": True} if echo else {"cls": cls, "index": index}
         mon.case_desc = None
         mon.reset_guard()
+        token = case_seed(seed, "ambient", cls, index)
+        amb = Ambient().enter(token) if ambient_on and token % Ambient.EVERY == 0 else None
+        if amb is not None:
+            mon.notes["ambient:cases under DEBUG logging / short print options / seeded global RNG"] = \
+                mon.notes.get("ambient:cases under DEBUG logging / short print options / seeded global RNG", 0) + 1
         _arm(per_case_timeout)
         try:
-            mod.run_case(ctx)
+            try:
+                mod.run_case(ctx)
+            finally:
+                if amb is not None:
+                    amb.exit()
         except Exhausted:
             _disarm()
             return "exhausted"
@@ -175,6 +234,7 @@ def run_shard(prop, tier, seed, shard, nshards, budget_s, max_cases, only=None, 
     # inputs, fresh objects - is run again under the same monitors.  A library that kept an alias of something
     # it handed out (a memo table returning the cached object, a module-level constant returned by reference)
     # now answers from the caller's scribbles, and the monitors see it.
+    ambient_on = getattr(mod, "AMBIENT", True)
     echo_every = getattr(mod, "ECHO", {}).get(tier, 3)
     res["echo_cases"] = 0
     res["echo_scribbled"] = 0
